@@ -2,6 +2,7 @@ package rules
 
 import (
 	"fmt"
+	"go/token"
 	"go/types"
 	"regexp"
 	"sort"
@@ -23,6 +24,8 @@ const secretTaint uint64 = 1
 // ctFinding is one use of secret-derived data in a position that must be secret independent.
 type ctFinding struct {
 	fn, kind, shape, pos, detail string
+	f                            *ssa.Function
+	prog                         *load.Program
 	atoms                        []string // kinds of the secret-dependent atoms (branch / index findings)
 }
 
@@ -94,8 +97,80 @@ func shortFn(f *ssa.Function) string {
 	return strings.TrimPrefix(strings.ReplaceAll(f.String(), models.Mod, "~"), "")
 }
 
+// helperCallersOf: for every module function the functions (top-level) that call it statically; a nil entry means it is
+// also used as a value (unknown callers).
+var helperCallers = map[*load.Program]map[*ssa.Function][]*ssa.Function{}
+
+func helperCallersOf(prog *load.Program) map[*ssa.Function][]*ssa.Function {
+	if cs, ok := helperCallers[prog]; ok {
+		return cs
+	}
+	cs := map[*ssa.Function][]*ssa.Function{}
+	for _, g := range ModuleFuncs(prog) {
+		top := g
+		for top.Parent() != nil {
+			top = top.Parent()
+		}
+		for _, b := range g.Blocks {
+			for _, in := range b.Instrs {
+				call, isCall := in.(ssa.CallInstruction)
+				for _, op := range in.Operands(nil) {
+					if op == nil || *op == nil {
+						continue
+					}
+					if h, isF := (*op).(*ssa.Function); isF {
+						if isCall && call.Common().StaticCallee() == h && call.Common().Value == ssa.Value(h) {
+							cs[h] = append(cs[h], top)
+						} else {
+							cs[h] = append(cs[h], nil) // used as a value
+						}
+					}
+				}
+			}
+		}
+	}
+	helperCallers[prog] = cs
+	return cs
+}
+
+// partOf: fn is one of the functions re matches, or an unexported helper (never used as a value) every call chain to
+// which passes through such a function - it is then a part of that function, however the code is cut into helpers.
+func partOf(prog *load.Program, fn *ssa.Function, re *regexp.Regexp, depth int) bool {
+	if fn == nil {
+		return false
+	}
+	for fn.Parent() != nil {
+		fn = fn.Parent() // a function literal belongs to the function it is written in
+	}
+	if re.MatchString(shortFn(fn)) {
+		return true
+	}
+	if prog == nil || depth > 4 || token.IsExported(fn.Name()) || fn.Pkg == nil || !load.IsModulePkg(fn.Pkg.Pkg.Path()) {
+		return false
+	}
+	callers := helperCallersOf(prog)[fn]
+	if len(callers) == 0 {
+		return false
+	}
+	for _, c := range callers {
+		if c == nil || (c != fn && !partOf(prog, c, re, depth+1)) {
+			return false
+		}
+	}
+	return true
+}
+
 // ctScan extracts the constant-time findings of a run.
 func ctScan(prog *load.Program, ex *absint.Exec) []ctFinding {
+	out := ctScan0(prog, ex)
+	for i := range out {
+		out[i].prog = prog
+		out[i].f = absint.FindFunc(prog.SSA, strings.ReplaceAll(out[i].fn, "~", models.Mod))
+	}
+	return out
+}
+
+func ctScan0(prog *load.Program, ex *absint.Exec) []ctFinding {
 	var out []ctFinding
 	for _, e := range ex.Events {
 		switch e.Kind {
@@ -249,7 +324,11 @@ func checkC17(c *Ctx) {
 				continue
 			}
 			bad++
-			c.R.Fail("C17-1", k+"/"+f.fn+"/"+f.kind+"/"+f.shape, f.pos, f.detail)
+			ctx := ""
+			if len(f.atoms) > 0 {
+				ctx += " [secret-dependent atoms: " + strings.Join(f.atoms, ", ") + "]"
+			}
+			c.R.Fail("C17-1", k+"/"+f.fn+"/"+f.kind+"/"+f.shape, f.pos, f.detail+ctx)
 		}
 		if bad == 0 {
 			c.R.OK("C17-1", k, "", fmt.Sprintf("%d uses of secret data in control / address / variable-time positions, all declassified validity outcomes", len(seen)))
@@ -357,7 +436,12 @@ var declassTable = []declassEntry{
 // declassified returns the id of the table entry covering the finding, or "".
 func declassified(f ctFinding) string {
 	for _, d := range declassTable {
-		if !d.fn.MatchString(f.fn) || !d.kinds[f.kind] {
+		match := d.fn.MatchString(f.fn)
+		if !match && f.f != nil {
+			// a helper that is part of the table entry's function(s)
+			match = partOf(f.prog, f.f, d.fn, 0)
+		}
+		if !match || !d.kinds[f.kind] {
 			continue
 		}
 		if f.kind == "external-call" {
@@ -594,7 +678,10 @@ func c17Runs(prog *load.Program) []ctRunSpec {
 		for _, fn := range []string{"newProjectivePointMultTable", "lookupProjectivePoint", "lookupAffinePoint"} {
 			if fn == "newProjectivePointMultTable" && absint.FindFunc(prog.SSA, models.Mod+"."+fn) == nil {
 				// the table builder may be a method of the table type instead (then it is among the methods above)
-				if b, inPlace := findTableBuilder(prog); b != nil && inPlace {
+				if b, _ := findTableBuilder(prog); b != nil {
+					if b.Signature.Recv() == nil {
+						out = append(out, ctRunSpec{key: "point/" + b.Name(), fn: b.String(), set: fieldSet(), taintAll: true})
+					}
 					continue
 				}
 			}
@@ -627,8 +714,12 @@ func ctProtoSet(prog *load.Program) *models.Set {
 	set := protoSet(nil)
 	base := set.Intercepts[Method(models.PointType, "ScalarBaseMult")]
 	set.Intercepts[Method(models.PointType, "ScalarBaseMult")] = func(ex *absint.Exec, cc *absint.CallCtx) (absint.Val, bool) {
-		if cc.Frame != nil && cc.Frame.Fn != nil {
-			switch cc.Frame.Fn.String() {
+		// anywhere in the dynamic extent of a self-check (the call may sit in a helper of it)
+		for fr := cc.Frame; fr != nil; fr = fr.Parent {
+			if fr.Fn == nil {
+				continue
+			}
+			switch fr.Fn.String() {
 			case models.SececPkg + ".verify", models.BitcoinPkg + ".verifySchnorrSelf":
 				if p, ok := cc.St.Resolve(cc.Args[0]).(*absint.Ptr); ok {
 					ex.StoreLeaf(cc.St, p, sym.Sym(sym.Point, "R:public-nonce-point"), cc.Pos)
